@@ -146,8 +146,8 @@ let explain kd st o now ev =
            | Some p -> bad := Printf.sprintf "element %s of %s was %s before the operation" (node_str n) side (node_str p) :: !bad
            | None -> bad := Printf.sprintf "element %s of %s appeared without being constructed there in this operation" (node_str n) side :: !bad)) in
   (match o with
-   | OSwap -> if not (nodes_eqb now.ob_a prev.ob_b && nodes_eqb now.ob_b prev.ob_a && ev = []) then
-       bad := "swap did not hand the element sequences over unchanged (or constructed/copied/destroyed/allocated something)" :: !bad
+   | OSwap -> if not (nodes_eqb now.ob_a prev.ob_b && nodes_eqb now.ob_b prev.ob_a) then
+       bad := "swap did not hand the element sequences over unchanged (same objects at the same places)" :: !bad
    | _ -> look "A" prev.ob_a prev.ob_b (not st.ss_cur) now.ob_a; look "B" prev.ob_b prev.ob_a st.ss_cur now.ob_b;
      let untouched = if st.ss_cur then nodes_eqb now.ob_a prev.ob_a else nodes_eqb now.ob_b prev.ob_b in
      if not untouched then bad := "the other container changed" :: !bad;
